@@ -13,6 +13,7 @@ Import ListNotations.
 Require Import PV.Narrow.Base PV.Narrow.Model PV.Narrow.Guards.
 Require Import PV.Gen.NarrowTable PV.Gen.NarrowPreds PV.Gen.NarrowSrc.
 Require Import PV.Proofs.NarrowSkel PV.Proofs.NarrowSrcTie.
+Require Import PV.Narrow.CoreBridge PV.Proofs.NarrowCoreBridge.
 Require Import PV.Proofs.NarrowBasics PV.Proofs.NarrowMain PV.Proofs.NarrowWiden PV.Proofs.NarrowVerdict.
 
 (* the class table (mro, TypeObject.base_classes, artificial bases), the per-class
@@ -106,6 +107,8 @@ Theorem C02_constraint_algebra_tie :
   (forall (a b : acon) (k : constr),
      invert (AAnd a b) = mk gen_and_invert (invert a) (invert b) /\
      invert (AOr a b) = mk gen_or_invert (invert a) (invert b) /\
+     invert (AAlt a b) = mk gen_alt_invert (invert a) (invert b) /\
+     apply_acon (AAlt a b) = apply_acon (mk gen_alt_apply_as a b) /\ gen_union_value_is_alt = true /\
      invert ANull = ANull /\ apply_acon ANull = [] /\
      (gen_leaf_invert_flips = true /\ invert (ALeaf k) = ALeaf (flip k)) /\
      (gen_and_apply_concat = true /\ apply_acon (AAnd a b) = apply_acon a ++ apply_acon b) /\
@@ -242,6 +245,17 @@ Theorem C02_narrow_no_widening_plain : forall V c pol o,
 Proof. exact narrow_no_widening_plain. Qed.
 Print Assumptions C02_narrow_no_widening_plain.
 
+(* union-valued conditions (`(a) if f() else (b)`, AlternativesConstraint): covered by the main theorem
+   (CIfExp); neither branch may become empty when the two members disagree *)
+Example C02_alternatives_example :
+  let V := [plain (VKnown ONone); plain (VTuple [(true, TIntE)]); plain (VKnown (OInt 1))] in
+  let c := CIfExp true (CIsInstance [CStr]) (CNot (CIsInstance [CStr])) in
+  narrow V c false = V /\ narrow V c true = V /\
+  holds c (OInt 1) = Some false /\ holds (CIfExp false (CIsInstance [CStr]) (CNot (CIsInstance [CStr]))) (OInt 1) = Some true /\
+  c02_guard c (OInt 1) = true.
+Proof. exact alternatives_example. Qed.
+Print Assumptions C02_alternatives_example.
+
 (* (1')/(2') the same two statements for what an `if` makes of x end to end, where visit_BoolOp
    first merges a narrowed copy of x (by the first operand) into the variable *)
 Theorem C02_narrow_e2e_keeps_value_partial : forall V c pol o,
@@ -254,6 +268,58 @@ Theorem C02_narrow_e2e_no_widening : forall V c pol o,
   member o (narrow_e2e V c pol) = true -> bmember o V = true \/ bmember o (tested c) = true.
 Proof. exact narrow_e2e_no_widening. Qed.
 Print Assumptions C02_narrow_e2e_no_widening.
+
+(* (1'') stored conditions (`flag = <cond on x>; ...; if flag:`): FunctionScope._add_single_constraint applies the
+   constraint only if every definition of x reaching the branch was current at the condition (the test is read
+   off the source: gen_stale_test); then the object bound through any reaching definition d is kept *)
+Theorem C02_stored_narrow_keeps_value : forall cur cons V c pol o d,
+  In d cur -> member o V = true -> (In d cons -> holds c o = Some pol) -> c02_guard c o = true ->
+  member o (stored_narrow cur cons V c pol) = true.
+Proof. exact stored_narrow_keeps_value. Qed.
+Print Assumptions C02_stored_narrow_keeps_value.
+
+Theorem C02_stale_test_tie : gen_stale_test = model_stale_test.
+Proof. exact stale_test_tie. Qed.
+Print Assumptions C02_stale_test_tie.
+
+(* the is_instance / is_value branches of Constraint.apply_to_value, translated from source, are the model's
+   apply_isinstance / apply_isvalue *)
+Theorem C02_apply_branches_tie :
+  (forall a b c d e f g h i j k l, gen_isinstance_apply a b c d e f g h i j k l = isinstance_apply_skel a b c d e f g h i j k l) /\
+  (forall a b c d e f g h i j k l m, gen_isvalue_apply a b c d e f g h i j k l m = isvalue_apply_skel a b c d e f g h i j k l m) /\
+  (forall c positive s,
+     apply_isinstance c positive s =
+     ainterp (isinstance_apply_skel (is_any_b (sbase s)) positive (is_known_b (sbase s)) (isinst (known_obj (sbase s)) c)
+                (is_typed_b (sbase s)) false (sub (nominal_cls (sbase s)) c) (sub c (nominal_cls (sbase s)))
+                (promotable c (nominal_cls (sbase s))) (is_sub_b (sbase s)) true (isinst (OClass (sub_cls (sbase s))) c))
+             s (plain VAny) (plain (VTyped c))) /\
+  (forall l positive s,
+     apply_isvalue l positive s =
+     ainterp (isvalue_apply_skel (is_any_b (sbase s)) positive (is_known_b (sbase s)) (obj_eqb (known_obj (sbase s)) l)
+                (is_typed_b (sbase s)) (isinst l (nominal_cls (sbase s))) (promotable (class_of l) (nominal_cls (sbase s)))
+                (is_sub_b (sbase s)) true (is_class_obj l) true (sub (class_obj l) (sub_cls (sbase s)))
+                (promotable (class_obj l) (sub_cls (sbase s))))
+             s (plain VAny) (plain (VKnown l))).
+Proof. exact apply_branches_tie. Qed.
+Print Assumptions C02_apply_branches_tie.
+
+(* the loops of Constraint.apply_to_values / _apply_compound / _constrain_value have the model's shape *)
+Theorem C02_loops_tie :
+  (gen_oneof_concat = true /\ forall cs s, apply_constr (KOneOf cs) s = flat_map (fun c => apply_constr c s) cs) /\
+  (gen_allof_sequential = true /\ gen_apply_values_flatmap = true /\
+   forall cs s, apply_constr (KAllOf cs) s = fold_left (fun vals c => flat_map (apply_constr c) vals) cs [s]) /\
+  (gen_predicate_is_provider = true /\ forall p pos s, apply_constr (KPred p pos) s = apply_pred p s pos) /\
+  (gen_constrain_fold = true /\ gen_constrain_applies = true /\
+   forall v a, constrain v a = fold_left (fun vals k => flat_map (apply_constr k) vals) (apply_acon a) v).
+Proof. exact loops_tie. Qed.
+Print Assumptions C02_loops_tie.
+
+Theorem C02_stored_disjoint_rule_refuted :
+  exists cur cons V c pol o d,
+    In d cur /\ member o V = true /\ (In d cons -> holds c o = Some pol) /\ c02_guard c o = true /\
+    member o (stored_narrow_with StaleIfDisjoint cur cons V c pol) = false.
+Proof. exact stored_disjoint_rule_refuted. Qed.
+Print Assumptions C02_stored_disjoint_rule_refuted.
 
 (* (3) always-false / always-true verdicts of get_boolability are right for every member *)
 Theorem C02_always_false_correct : forall V o,
@@ -294,3 +360,35 @@ Theorem C02_de_morgan : forall V a b pol,
   narrow V (CNot (COr a b)) pol = narrow V (CAnd (CNot b) (CNot a)) pol.
 Proof. exact de_morgan. Qed.
 Print Assumptions C02_de_morgan.
+
+(* (5) one notion of membership: on the common fragment (un-annotated Any / plain literals / classes /
+   type[...] / list[t] / dict[k, v]; objects other than enum classes) C02's membership spec is the shared
+   Core/Member.v spec instantiated with the C02 class table (whose promotion-aware subclass test
+   sub_promo is TypeObject.can_assign's sub_art), and the main theorem holds for Core's member *)
+Theorem C02_sub_promo_is_sub_art : forall a b, C.sub_promo narrow_ct (code a) (code b) = sub_art a b.
+Proof. exact sub_promo_is_sub_art. Qed.
+Print Assumptions C02_sub_promo_is_sub_art.
+
+Theorem C02_member_narrow_iff_member_core : forall v o,
+  common_value v = true -> common_obj o = true ->
+  M.member narrow_ct (emb_value v) (emb o) = member o v.
+Proof. exact member_narrow_iff_member_core. Qed.
+Print Assumptions C02_member_narrow_iff_member_core.
+
+Theorem C02_narrow_keeps_value_core : forall V c pol o,
+  common_value V = true -> common_value (narrow V c pol) = true -> common_obj o = true ->
+  M.member narrow_ct (emb_value V) (emb o) = true -> holds c o = Some pol -> c02_guard c o = true ->
+  M.member narrow_ct (emb_value (narrow V c pol)) (emb o) = true.
+Proof. exact narrow_keeps_value_core. Qed.
+Print Assumptions C02_narrow_keeps_value_core.
+
+Example C02_core_bridge_inhabited :
+  let V := [plain (VTyped CFloat); plain (VKnown ONone); plain (VGen (GList TIntE)); plain (VSub CA)] in
+  common_value V = true /\ common_obj (OInt 1) = true /\ common_obj (OList [LInt 1]) = true /\
+  M.member narrow_ct (emb_value V) (emb (OInt 1)) = true /\
+  M.member narrow_ct (emb_value V) (emb (OList [LInt 1])) = true /\
+  M.member narrow_ct (emb_value V) (emb (OList [LStr []])) = false /\
+  M.member narrow_ct (emb_value V) (emb (OClass CB)) = true /\
+  common_value (narrow V (CIsInstance [CInt]) true) = true.
+Proof. exact core_bridge_inhabited. Qed.
+Print Assumptions C02_core_bridge_inhabited.
